@@ -223,3 +223,10 @@ Lemma subtype_cycle_example :
   is_sub_type_of_opt cyc_world 1 2 = Some false /\ is_sub_type_of_opt cyc_world 4 1 = Some true /\
   is_sub_type_of_opt cyc_world 4 3 = Some false /\ is_sub_type_of_opt cyc_world 4 nm_string = Some true.
 Proof. vm_compute. repeat split; reflexivity. Qed.
+
+(** the braid: the code's filter (fresh visited set per edge) drops every edge of the cycles; with one
+    shared visited set the edges A -> B and B -> A would both survive *)
+Lemma braid_example :
+  eff_supers braid_world 1 = Some (Some []) /\ eff_supers braid_world 3 = Some (Some []) /\
+  eff_supers_shared braid_world 1 = Some [TRef 3] /\ eff_supers_shared braid_world 3 = Some [TRef 1].
+Proof. vm_compute. repeat split; reflexivity. Qed.
